@@ -75,6 +75,13 @@ pub fn worker_main(a: WorkerArgs) -> i32 {
             ctx.violation(sig, serde_json::json!({"what": "panic inside the crate under test during this case (unwrapped call)", "panic_at": p.loc, "panic_msg": p.msg}));
         }
     }
+    let d = crate::visit::PEQ_DISAGREE.load(std::sync::atomic::Ordering::Relaxed);
+    if d > 0 {
+        // the crate's own PartialEq disagreed with the harness's field-by-field comparison: the oracles
+        // use the latter; recorded for the reader (a weakened PartialEq cannot blind the monitors)
+        ctx.add("partial_eq.disagrees_with_fieldwise_comparison", d);
+        ctx.note("the crate's PartialEq disagreed with the independent field-by-field comparison on some values".into());
+    }
     let js = ctx.to_json();
     match &a.out {
         Some(p) => std::fs::write(p, serde_json::to_vec(&js).unwrap()).expect("write shard result"),
